@@ -14,7 +14,9 @@ import (
 )
 
 const (
-	KeysIndexSep       = "_"
+	// KeysIndexSep joins the elements of a path to the key of an index; it must not be able to occur
+	// inside an element (names, key values), otherwise different paths collide ("a_b","c" and "a","b_c")
+	KeysIndexSep       = "\x00"
 	DefaultValuesPrio  = int32(math.MaxInt32 - 90)
 	DefaultsIntentName = "default"
 	RunningValuesPrio  = int32(math.MaxInt32 - 100)
